@@ -11,7 +11,8 @@ TRUST = ("TLC 1.8.0 + CommunityModules (Json/IOUtils) and the JVM; numpy/scipy a
 # id -> (technique, level text, design_ref, note, has_thorough)
 CHECKS = {}
 
-def add(pid, technique, text, ref, note=TRUST):
+def add(pid, technique, text, ref, note=None):
+    note = note or TRUST
     CHECKS[pid] = dict(technique=technique, text=text, ref=ref, note=note)
 
 add('C11', 'TLA+ spec MeshTopology: TLC model checking of the build_entities/build_inverse transcription over '
@@ -95,6 +96,34 @@ add('C07', 'TLA+ spec Dofs (closure semantics of get_dofs, selector normalisatio
     '(DOFs with non-zero trace on the selected facets are returned; Lagrange H1 by value, RT/BDM normal, Nedelec '
     'tangential component).',
     'DESIGN.md section 5 C07')
+
+add('C08', 'TLA+ spec Numeric/Quadrature: exact reference-cell monomial moments as fixed-point limb vectors (oracle in '
+    'TLA+); COMPLETE enumeration of every (reference cell, order) the library offers x every promised monomial; moments of '
+    'the returned rule computed in exact rational arithmetic from the returned floats and compared by TLC; design-level '
+    'model of the Gauss/tensor constructions (MC_C08)',
+    'Finite space enumerated completely (exhaustive: true): 7 cell kinds, orders -1 .. tables+3. TLC decides '
+    'WeightsSumToMeasure, NodesInCell, ExactToDegree, RefusesOutsideTable with tolerance 2^-42 of the cell measure '
+    '(observed round-off 4e-15; smallest effect of a next-lower table 2e-12). Numeric accuracy below the tolerance is '
+    'not decided.',
+    'DESIGN.md section 5 C08', TRUST + ' Mode L: the closed forms are textbook formulas re-derived inside TLA+.')
+add('C02', 'TLA+ spec Numeric/GeomNum/Integration: exact measures and closed-form polynomial integrals over simplices/boxes '
+    'and rational P0-P2 element matrices computed by TLC; real Functional / mass sums / element matrices on integer-'
+    'coordinate meshes compared in fixed point; invariance laws (numbering, rigid motion, refinement); design-level '
+    'consistency of the closed forms (MC_C02)',
+    'TLC decides FunctionalExact / ElementalExact (whole domain, tagged sub-domains, facet sets), MassSumsToMeasure '
+    '(partition-of-unity elements up to P4/Q2/Hex2/prisms), EntriesExact (P0-P2 affine), Numbering/RigidMotion/'
+    'RefinementInvariant with tolerance 2^-40 x magnitude. Partial: exact entries only for P0-P2 on affine cells; higher '
+    'degree and non-affine cells through sum and invariance laws only.',
+    'DESIGN.md section 5 C02', TRUST + ' Mode L: exact oracles in TLA+, tolerance named in Numeric.tla.')
+add('C10', 'TLA+ spec Mappings/GeomNum: exact clauses on integer-coordinate cells (vertices mapped, determinant = signed '
+    'volume, outward normals) and laws in fixed point (inverse composes, Jacobian = derivative, inverse Jacobian, surface '
+    'factor, unit/orthogonal normals, divergence theorem, affine = isoparametric, shared vs per-cell points, subset '
+    'commutes) validated by TLC on recorded map evaluations; MC_C10 for the normal slot choice',
+    'TLC decides the listed clauses on recorded evaluations of MappingAffine / MappingIsoparametric for straight, renumbered, '
+    'mirrored, second-order straight and curved meshes, all ways of passing points and cell/facet subsets (call sequences '
+    'on one mapping object incl. the int32/int64 cache-key case). Newton inversion on strongly distorted cells and '
+    'epsilon-boundary behaviour are not addressed.',
+    'DESIGN.md section 5 C10', TRUST + ' Mode L tolerance 2^-36 x magnitude (observed 2^-49).')
 
 NOT_YET = "check not built yet (implementation in progress; see DESIGN.md section 8 for the plan)"
 NA = {'C09': "no state, transitions or discrete core: ~70 closed-form derivative formulas; TLA+/TLC cannot express "
